@@ -340,7 +340,8 @@ def h_tune(c):
         body.append(dict(kind='field', field='L', value=Fraction(1, d)))
         text += '[L:1/%s]' % tx.num(d)
       elif f == 'Q':
-        rate = c.int('iq_rate', 30, 240)
+        nq = sum(1 for b_ in body if b_.get('field') == 'Q')
+        rate = c.int('iq_rate' if not nq else 'iq%d_rate' % nq, 30, 240)
         body.append(dict(kind='field', field='Q',
                          value=(Fraction(form[1]), rate)))
         text += '[Q:%s=%s]' % (form[1], tx.num(rate))
@@ -592,6 +593,13 @@ def jobs(tier):
       accs=[None], octs=[''], tempo='1/4')
   add('h_tune', notes=['k', ['Q', '1/4'], 'k'], key=['C', ''], letters=['C'],
       accs=[None], octs=[''], unit='frac')
+  # tempo marks that share one time: a header Q: replaced by an inline [Q:]
+  # before the first note, and two inline fields in a row (the later one is
+  # the tempo in force)
+  add('h_tune', notes=[['Q', '1/4'], 'k', 'none'], key=['C', ''],
+      letters=['C'], accs=[None], octs=[''], tempo='1/4')
+  add('h_tune', notes=['none', ['Q', '1/4'], ['Q', '3/8'], 'k'], key=['C', ''],
+      letters=['C'], accs=[None], octs=[''], tempo='1/2')
   add('h_tune', notes=['none', ['K', 'A', ''], 'none'], key=['F', ''],
       letters=['C', 'B'], accs=[None], octs=[''])
   add('h_tune', notes=['k', ['M'], 'none'], key=['C', ''], letters=['C'],
